@@ -719,6 +719,8 @@ def rule_stored_once(ctx, repo):
             it.call_method(t, "add_notes", ["C", 4], {}, None)
             it.call_method(t, "add_notes", [None, 8], {}, None)
             bars = it.getattr(t, "bars")
+            if not bars:
+                return None
             rows = it.getattr(bars[0], "bar")
             before = (list(bars), [list(r) for r in rows], it.getattr(bars[0], "current_beat"))
             answers = [it.call_method(t, "has_room", [v], {}, None) for v in (4, 2, 4, 1, 8)]
@@ -730,6 +732,8 @@ def rule_stored_once(ctx, repo):
         except CannotDecide as e:
             raise AnalysisError("Track.has_room on a track with an unfinished bar: %s" % e)
         ok, why = len(ps) == 1 and ps[0].kind == "return", "outcome %s" % [(p.kind, short(repr(p.value), 80)) for p in ps]
+        if ok and ps[0].value is None:
+            ok, why = False, "the track holds no bar after two entries were added to it"
         if ok:
             before, after, answers, same_list = ps[0].value
             if len(before[0]) != len(after[0]) or any(a is not b for a, b in zip(before[0], after[0])) or len(before[1]) != len(after[1]) \
